@@ -541,6 +541,23 @@ def eval_block(stmts: Sequence[ast.stmt], env: Dict[str, object], sink: Callable
                 raise AnalysisError("block evaluation: unsupported call statement " + src(st))
         elif isinstance(st, ast.Delete) and all(src(t) in ignore for t in st.targets):
             continue
+        elif isinstance(st, ast.Delete) and all(isinstance(t, ast.Subscript) for t in st.targets):
+            for t in st.targets:
+                cont = _pe(t.value, env, funcs)
+                if not isinstance(cont, (list, bytearray, dict)):
+                    raise AnalysisError("block evaluation: unsupported delete " + src(st))
+                if isinstance(t.slice, ast.Slice):
+                    lo = _pe(t.slice.lower, env, funcs) if t.slice.lower else None
+                    hi = _pe(t.slice.upper, env, funcs) if t.slice.upper else None
+                    del cont[lo:hi]
+                else:
+                    try:
+                        del cont[_pe(t.slice, env, funcs)]
+                    except (KeyError, IndexError) as e:
+                        raise BlockRaised(f"statement raises during finite evaluation: {src(st)[:80]}", e)
+        elif isinstance(st, ast.Delete) and all(isinstance(t, ast.Name) for t in st.targets):
+            for t in st.targets:
+                env.pop(t.id, None)
         elif isinstance(st, ast.For):
             try:
                 items = iter(_pe(st.iter, env, funcs))     # lazily: the body may advance the same iterator
